@@ -114,7 +114,7 @@ def main(argv=None):
         prep_ok, prep_msg = mod.prepare(ctx)
         if not prep_ok:
             gate_problems.append({"gate": "translator", "detail": prep_msg[-1500:]})
-    build_ok, build_log = lib.coq_build()
+    build_ok, build_log = lib.coq_build(prop=prop)
     pg = lib.proof_gate(prop)
     if not pg["ok"]:
         gate_problems.append({"gate": "proof", "theorem_file": pg["file"], "detail": pg["error"],
